@@ -587,6 +587,23 @@ def bundle_cases(rng, tier, quick, thorough, special=None):
     for e, p in gen.large_cases(rng, max(10, n // 40), max_arity=17):
         ids = sx.var_ids(e)
         cases.append((e, p, rng.choice(ids) if ids else 2))
+    # always: products of 11-17 linear factors at a root of one factor, and towers of odd roots whose indices multiply
+    # beyond 2^53 (under a power sharing a factor with them), at negative and positive abscissae
+    x_ = ('V', 2)
+    for k_ in rng.sample([11, 12, 13, 15, 17], 3):
+        prod = ('Mul', [('Minus', x_, ('C', i + 1)) for i in range(k_)])
+        root = rng.randint(1, k_)
+        for e_ in (prod, ('Add', [prod, x_])):
+            cases.append((e_, [(2, root)], 2))
+            cases.append((e_, [(2, float(root))], 2))
+    for _ in range(4):
+        ns = [rng.choice([3, 5, 7, 9, 11, 15, 21, 33]) for _ in range(rng.randint(14, 19))]
+        t = x_
+        for n_ in ns:
+            t = ('NthRoot', t, n_)
+        e_ = rng.choice([t, ('NthPow', t, 3), ('NthPow', t, 9), ('NthPow', t, 4), ('NthPow', t, 15)])
+        for xv in (-2, -0.5, 2):
+            cases.append((e_, [(2, xv)], 2))
     return cases
 
 
